@@ -16,7 +16,8 @@ L(o) == [n |-> o.line.n, core |-> o.line.core, ver |-> o.line.ver, net |-> o.lin
          proto |-> o.line.proto, cert |-> o.line.cert, mux |-> o.line.mux, ws |-> o.line.ws]
 C(o) == [allowed |-> o.cfg.allowed, tls |-> o.cfg.tls, muxreq |-> o.cfg.muxreq]
 
-Causes == {"line", "silent", "partial", "exitearly", "closeout"}
+\* "mismatch": a real serving plugin (its socket already exists) that this host turns down because of its own configuration
+Causes == {"line", "mismatch", "silent", "partial", "exitearly", "closeout"}
 StartTimeoutMs == 1500
 Slack == 1500
 
